@@ -277,6 +277,8 @@ def read_chains(e):
 
     def cut(c):
         # an attribute that is a property of some class of the module may read any other attribute of its object
+        if '*' in ALL_PROPS[0] and len(c) > 1 and c[0] == 'self':
+            return c[:1]        # the class has a base that cannot be read: any attribute of self may be a property
         for i in range(1, len(c)):
             if c[i] in ALL_PROPS[0]:
                 return c[:i]
@@ -336,6 +338,8 @@ def written_chains(st):
     """chains a statement may change: assignment / augmented-assignment / del / for / with targets, receivers of method calls
     that are not pure, whole-object arguments of calls that are not pure."""
     out = set()
+    _REBOUND_ONLY[0] = set()
+    rebound = set()
     for n in ast.walk(st):
         if isinstance(n, ast.AsyncFor):
             out.add(('*',))        # the coroutine is suspended there: anything may change
@@ -345,6 +349,11 @@ def written_chains(st):
                 for x in ast.walk(t):
                     if isinstance(x, (ast.Name, ast.Attribute, ast.Subscript)) and isinstance(getattr(x, 'ctx', None), (ast.Store, ast.Del)):
                         c = chain(x if not isinstance(x, ast.Subscript) else x.value)
+                        if isinstance(x, ast.Name) and (not isinstance(n, ast.AugAssign) or not _allocates(n.value) and x.id not in NOT_ITERATORS[0]):
+                            # the name is given another object: nothing happens to the old one (an augmented assignment whose
+                            # operand is not a display / constructor, on a local never bound to one, is taken as arithmetic)
+                            rebound.add((x.id,))
+                            continue
                         if c is not None:
                             out.add(c)
                         else:
@@ -434,16 +443,23 @@ def written_chains(st):
                     out.add(chain(a))
         elif isinstance(n, (ast.Yield, ast.YieldFrom, ast.Await)):
             out.add(('*',))        # control leaves the function: anything may change
-    return out
+    _REBOUND_ONLY[0] = rebound - out
+    return out | rebound
 
 
-def _with_aliases(w):
+_REBOUND_ONLY = [set()]
+
+
+def _with_aliases(w, plain=()):
     """written chains plus, for each chain written through a name / attribute that may be another name for an object, that
     object as a whole"""
     out = set(w)
+    plain = set(plain)          # bare names that were only rebound (given another object): nothing is written through them
     for _ in range(12):
         more = set()
         for a in out:
+            if a in plain:
+                continue
             for p, q in ALIASES[0]:
                 if _prefix(a, p) and q not in out:
                     more.add(q)
@@ -458,13 +474,66 @@ def _with_aliases(w):
 MUTABLE_GLOBALS = [frozenset()]     # names some function of the module declares `global` (ctx['mutable_globals'])
 
 
+def _store_chains(st):
+    """chains that statement st binds anew (name / attribute targets of assignments, for, with, del, walrus): the slot gets
+    another object.  Item stores and calls change an object, they do not rebind the slot that holds it."""
+    out = set()
+    for n in ast.walk(st):
+        tg = []
+        if isinstance(n, ast.Assign):
+            tg = n.targets
+        elif isinstance(n, (ast.AugAssign, ast.AnnAssign, ast.For, ast.AsyncFor)):
+            tg = [n.target]
+        elif isinstance(n, ast.Delete):
+            tg = n.targets
+        elif isinstance(n, (ast.With, ast.AsyncWith)):
+            tg = [it.optional_vars for it in n.items if it.optional_vars is not None]
+        elif isinstance(n, ast.NamedExpr):
+            tg = [n.target]
+        elif isinstance(n, ast.ExceptHandler) and n.name:
+            out.add((n.name,))
+        elif isinstance(n, (ast.Import, ast.ImportFrom)):
+            out |= {((a.asname or a.name).split('.')[0],) for a in n.names}
+        for t in tg:
+            for x in ast.walk(t):
+                if isinstance(x, (ast.Name, ast.Attribute)) and isinstance(getattr(x, 'ctx', None), (ast.Store, ast.Del)):
+                    c = chain(x)
+                    if c is not None:
+                        out.add(c)
+    return out
+
+
+def slot_interferes(st, r):
+    """may statement st change which object the attribute chain r (read as a reference, e.g. `self.hdr`) denotes?  Yes if it
+    binds r or a prefix of it anew, or changes (by a call / item store) an object that holds one of the slots on the way -
+    a strict prefix of r.  Changing the object r denotes does not change the reference."""
+    w = written_chains(st)
+    if ('*',) in w:
+        return True
+    if any(part in ALL_PROPS[0] for part in r[1:]) or '*' in ALL_PROPS[0] and r[0] == 'self' and len(r) > 1:
+        # a property on the way: not a plain slot - it may read anything of its object
+        k = 1 if '*' in ALL_PROPS[0] and r[0] == 'self' else min(i for i in range(1, len(r)) if r[i] in ALL_PROPS[0])
+        return interferes(st, {r[:k]})
+    if r[0] in MUTABLE_GLOBALS[0] and any(isinstance(n, ast.Call) and not is_pure(n) for n in ast.walk(st)):
+        return True
+    stores = _store_chains(st)
+    plain = set(_REBOUND_ONLY[0])
+    cut = _cut_written(stores)
+    special = cut - stores              # stores through __class__ / __dict__ / a property setter: the object as a whole
+    stores = stores & cut
+    if any(c == r[:len(c)] for c in stores):
+        return True
+    muts = _with_aliases(_cut_written(w - stores) | special, plain) | _with_aliases({c for c in stores if len(c) > 1}, ())
+    return any(len(c) < len(r) and c == r[:len(c)] for c in muts if c not in plain)
+
+
 def _cut_written(w):
     """written chains cut where the written thing is more than the named attribute: `__dict__` / `__class__` (the object's whole
     state / its class attributes, read through the instance), a property (its setter may store anywhere in the object)"""
     out = set()
     for c in w:
         for i, part in enumerate(c):
-            if i and (part in ('__dict__', '__class__') or part in ALL_PROPS[0]):
+            if i and (part in ('__dict__', '__class__') or part in ALL_PROPS[0] or '*' in ALL_PROPS[0] and c[0] == 'self'):
                 c = c[:i]
                 break
         out.add(c)
@@ -476,7 +545,7 @@ def interferes(st, reads):
     w = written_chains(st)
     if ('*',) in w:
         return True
-    w = _with_aliases(_cut_written(w))
+    w = _with_aliases(_cut_written(w), _REBOUND_ONLY[0])
     if MUTABLE_GLOBALS[0] and any(r[0] in MUTABLE_GLOBALS[0] for r in reads) and any(isinstance(n, ast.Call) and not is_pure(n) for n in ast.walk(st)):
         return True         # any call may run a function that rebinds such a name
     return any(_prefix(a, b) for a in w for b in reads)
@@ -2151,6 +2220,8 @@ def _numeric(e):
     those (one numeric operand of + - * makes the other one numeric too, or the operation fails)"""
     if isinstance(e, ast.Constant):
         return type(e.value) in (int, float)
+    if isinstance(e, ast.Name):
+        return e.id in _NUMERIC_LOCALS[0]
     if isinstance(e, ast.Call) and isinstance(e.func, ast.Name) and e.func.id in ('len', 'int', 'float', 'ord', 'abs', 'round'):
         return True
     if isinstance(e, ast.BinOp) and isinstance(e.op, (ast.LShift, ast.RShift, ast.FloorDiv, ast.Div, ast.Mod, ast.Pow)):
@@ -2178,17 +2249,58 @@ def _allocates(e):
         return True
     if isinstance(e, ast.BinOp) and isinstance(e.op, (ast.Mult, ast.Add)) and (_allocates(e.left) or _allocates(e.right)):
         return True         # [0] * n, [a] + rest
-    if isinstance(e, ast.BinOp) and isinstance(e.op, (ast.Add, ast.Mult, ast.BitOr, ast.BitAnd, ast.BitXor, ast.Sub)) and not _numeric(e):
+    if isinstance(e, ast.BinOp) and isinstance(e.op, (ast.Add, ast.Mult, ast.BitOr, ast.BitAnd, ast.BitXor)) and not _numeric(e):
         return True         # a + b, row * n, a | b of lists / sets / arrays are new objects
     if isinstance(e, ast.UnaryOp) and not isinstance(e.op, ast.Not) and not _numeric(e.operand):
         return True
-    if isinstance(e, ast.Call) and any(_allocates(a) for a in list(e.args) + [k.value for k in e.keywords]):
-        return True         # d.get(k, [])
+    if isinstance(e, ast.Call) and any(isinstance(a, (ast.List, ast.Dict, ast.Set, ast.ListComp, ast.SetComp, ast.DictComp)) or isinstance(a, ast.Call) and isinstance(a.func, ast.Name)
+                                       and a.func.id in ('list', 'dict', 'set', 'bytearray') for a in list(e.args) + [k.value for k in e.keywords]):
+        return True         # d.get(k, []): the fresh default may be what comes back
     if isinstance(e, ast.Subscript) and isinstance(e.slice, ast.Slice):
         return True         # a slice of a list is a new list
     if isinstance(e, ast.IfExp):
         return _allocates(e.body) or _allocates(e.orelse)
     return False
+
+
+_NONRETAINING_FUNCS = {'len', 'int', 'float', 'str', 'bytes', 'repr', 'bool', 'isinstance', 'tuple', 'sorted', 'list', 'set', 'frozenset', 'sum', 'any', 'all', 'ord',
+                       'abs', 'round', 'enumerate', 'zip', 'range', 'hex', 'format', 'divmod', 'bytearray', 'dict', 'min', 'max'}
+_NONRETAINING_METHODS = {'match', 'search', 'fullmatch', 'startswith', 'endswith', 'find', 'rfind', 'index', 'count', 'join', 'format', 'encode', 'decode', 'unpack',
+                         'unpack_from', 'pack', 'strip', 'lstrip', 'rstrip', 'split', 'rsplit', 'lower', 'upper', 'replace', 'isdigit', 'group', 'hex', 'tobytes'}
+
+
+def _identity_free_uses(func, uses):
+    """every use of the value only looks at it: an operand of arithmetic / an ordering or equality comparison, an item or slice
+    read, a field of an f-string, the iterable of a loop, an argument of a builtin / str / re / struct function that keeps no
+    reference to it, the receiver of a side-effect-free method.  Then it does not matter whether the uses see one object or
+    several equal ones (a fresh list / slice written out at each use)."""
+    parent = {}
+    for n in ast.walk(func):
+        for c in ast.iter_child_nodes(n):
+            parent[id(c)] = n
+    for u in uses:
+        p = parent.get(id(u))
+        if isinstance(p, ast.Compare) and not any(isinstance(o, (ast.Is, ast.IsNot)) for o in p.ops):
+            continue
+        if isinstance(p, ast.Compare) and len(p.ops) == 1 and any(isinstance(x, ast.Constant) and x.value is None for x in [p.left] + p.comparators):
+            continue        # `x is None` does not tell equal objects apart
+        if isinstance(p, (ast.BinOp, ast.UnaryOp, ast.FormattedValue)):
+            continue
+        if isinstance(p, ast.Subscript) and p.value is u and isinstance(p.ctx, ast.Load):
+            continue
+        if isinstance(p, (ast.For, ast.comprehension)) and p.iter is u:
+            continue
+        if isinstance(p, ast.Call) and any(a is u for a in p.args) and not p.keywords:
+            if isinstance(p.func, ast.Name) and p.func.id in _NONRETAINING_FUNCS and p.func.id not in SHADOWED[0]:
+                continue
+            if isinstance(p.func, ast.Attribute) and p.func.attr in _NONRETAINING_METHODS and (builtin_only(p.func.attr) or _stdlib_receiver(p.func.value)):
+                continue
+        if isinstance(p, ast.Attribute) and p.value is u:
+            g = parent.get(id(p))
+            if isinstance(g, ast.Call) and g.func is p and is_pure(g) and p.attr in _NONRETAINING_METHODS:
+                continue
+        return False
+    return True
 
 
 def inline_temps(func):
@@ -2204,7 +2316,7 @@ def inline_temps(func):
                 t = st.targets[0].id
                 if t in params or len(stores.get(t, [])) != 1 or not is_pure(st.value) or _has_nested_scope_use(func, t):
                     continue
-                if _allocates(st.value):
+                if _allocates(st.value) and not _identity_free_uses(func, loads.get(t, [])):
                     # a new object may be written out in place of its name only if that happens once per definition
                     us = loads.get(t, [])
                     if len(us) != 1:
@@ -2265,6 +2377,27 @@ def inline_temps(func):
                             for x in hdr[:fpos]:
                                 if id(x) not in anc and (isinstance(x, ast.Subscript) and not isinstance(x.slice, ast.Slice) or isinstance(x, (ast.Call, ast.BinOp)) and may_raise(x)):
                                     ok = False
+                if isinstance(st.value, ast.Name) and ok:
+                    # another name for the same object: only a rebinding of either name in between matters (what is done to
+                    # the object shows through both) - and the name read must be this function's own (parameter / local)
+                    src = st.value.id
+                    if (src in params or src in stores) and not _has_nested_scope_use(func, src) and src not in MUTABLE_GLOBALS[0]:
+                        for u in uses:
+                            btw = _between(func, st, u)
+                            if btw is None or any(isinstance(n, ast.Name) and n.id == src and isinstance(n.ctx, (ast.Store, ast.Del)) for s_ in btw for n in ast.walk(s_)) \
+                                    or any(isinstance(n, (ast.Import, ast.ImportFrom, ast.ExceptHandler, ast.NamedExpr)) for s_ in btw for n in ast.walk(s_)):
+                                ok = False
+                                break
+                        uses = [] if ok else uses
+                _vc = chain(st.value) if isinstance(st.value, ast.Attribute) and not any(isinstance(x, (ast.Subscript, ast.Call)) for x in ast.walk(st.value)) else None
+                if _vc is not None and ok and uses:
+                    # the value is a reference read from a chain of slots: only what rebinds one of those slots matters
+                    for u in uses:
+                        btw = _between(func, st, u)
+                        if btw is None or any(slot_interferes(s_, _vc) for s_ in btw):
+                            ok = False
+                            break
+                    uses = [] if ok else uses
                 for u in uses if ok else []:
                     btw = _between(func, st, u)
                     if btw is None or any(interferes(s, reads) for s in btw):
@@ -3053,7 +3186,7 @@ def _through_property(target, c):
     if '.' not in target:
         return False
     import re as _re
-    if target.split('.')[-1] in ALL_PROPS[0]:
+    if target.split('.')[-1] in ALL_PROPS[0] or '*' in ALL_PROPS[0] and target.startswith('self.'):
         return True
     root = target.split('.')[0]
     return any(f'{root}.' in c and _re.search(r'\.' + _re.escape(p_) + r'\b', c) for p_ in ALL_PROPS[0])
@@ -3218,7 +3351,7 @@ def _bubble(tree):
     while i + 1 < len(out) and simple(out[i]) and simple(out[i + 1]):
         a, b = out[i][1][0], out[i + 1][1][0]
         if b < a and not a.startswith(b) and not b.startswith(a) and not _aliased_in(a, b) and not _aliased_in(b, a) \
-                and not any(x.split('.')[-1] in ALL_PROPS[0] for x in (a, b)):
+                and not any(x.split('.')[-1] in ALL_PROPS[0] or '*' in ALL_PROPS[0] and x.startswith('self.') for x in (a, b)):
             out[i], out[i + 1] = out[i + 1], out[i]
             i += 1
         else:
@@ -3777,8 +3910,33 @@ def _alias_sources(v):
     return set()
 
 
+def scalar_locals(func):
+    """bare names used as numbers somewhere in the function: an operand of - / // % << >> **, compared by order or equality with
+    something visibly numeric, added to / multiplied by something visibly numeric, an argument of range().  A number is not
+    another name for an object: it is never an alias."""
+    out = set(_NUMERIC_LOCALS[0])
+    for _ in range(2):
+        for n in ast.walk(func):
+            if isinstance(n, ast.BinOp):
+                ops = [n.left, n.right]
+                if isinstance(n.op, (ast.Sub, ast.Div, ast.FloorDiv, ast.LShift, ast.RShift, ast.Pow)) or \
+                        isinstance(n.op, (ast.Add, ast.Mult, ast.Mod)) and any(_numeric(o) or isinstance(o, ast.Name) and o.id in out for o in ops) and not any(isinstance(o, (ast.Constant, ast.JoinedStr)) and not _numeric(o) for o in ops):
+                    out |= {o.id for o in ops if isinstance(o, ast.Name)}
+            elif isinstance(n, ast.AugAssign) and isinstance(n.target, ast.Name) and (isinstance(n.op, (ast.Sub, ast.Div, ast.FloorDiv, ast.LShift, ast.RShift)) or _numeric(n.value)
+                                                                                     or isinstance(n.value, ast.Name) and n.value.id in out):
+                out.add(n.target.id)
+            elif isinstance(n, ast.Compare) and len(n.ops) == 1 and not isinstance(n.ops[0], (ast.In, ast.NotIn, ast.Is, ast.IsNot)):
+                ops = [n.left, n.comparators[0]]
+                if any(_numeric(o) or isinstance(o, ast.Name) and o.id in out for o in ops):
+                    out |= {o.id for o in ops if isinstance(o, ast.Name)}
+            elif isinstance(n, ast.Call) and isinstance(n.func, ast.Name) and n.func.id == 'range':
+                out |= {a.id for a in n.args if isinstance(a, ast.Name)}
+    return out
+
+
 def function_aliases(func):
     pairs = set()
+    scalars = scalar_locals(func)
 
     def targets(t):
         if isinstance(t, (ast.Tuple, ast.List)):
@@ -3811,7 +3969,7 @@ def function_aliases(func):
             continue
         for a in tg:
             for b in src:
-                if a != b:
+                if a != b and not (len(a) == 1 and a[0] in scalars) and not (len(b) == 1 and b[0] in scalars):
                     pairs.add((a, b))
     return tuple(sorted(pairs))
 
@@ -3861,6 +4019,17 @@ def canonical(func, helpers=None, consts=None, sized=None, cls_name=None, props=
             if isinstance(n, ast.Assign) and len(n.targets) == 1 and isinstance(n.targets[0], ast.Name) and _container_value(n.value):
                 _good[n.targets[0].id] = _good.get(n.targets[0].id, 0) + 1
         NOT_ITERATORS[0] = frozenset(k for k, v in _good.items() if v == len(_stores.get(k, [])) and k not in _params(func))
+        # locals every binding of which is visibly a number (plain or augmented assignment of a numeric expression)
+        _saved_num = _NUMERIC_LOCALS[0]
+        _NUMERIC_LOCALS[0] = frozenset()
+        for _round in range(3):
+            _numok = {}
+            for n in ast.walk(func):
+                if isinstance(n, (ast.Assign, ast.AugAssign)) and (isinstance(n, ast.AugAssign) or len(n.targets) == 1):
+                    t_ = n.target if isinstance(n, ast.AugAssign) else n.targets[0]
+                    if isinstance(t_, ast.Name):
+                        _numok.setdefault(t_.id, []).append(_numeric(n.value))
+            _NUMERIC_LOCALS[0] = frozenset(k for k, v in _numok.items() if all(v) and len(v) == len(_stores.get(k, [])) and k not in _params(func))
         ALIASES[0] = function_aliases(func)
         _nt, _ntc = set(), set()
         for n in ast.walk(func):
@@ -4021,7 +4190,10 @@ def canonical(func, helpers=None, consts=None, sized=None, cls_name=None, props=
             return False
         # (a `yield` anywhere - even in a place that is never reached - makes the function a generator)
         return ('async ' if isinstance(func, ast.AsyncFunctionDef) else '') + ('generator ' if _own_yield(func) else '') + _signature(f) + ' :: ' + text
-    except (NotCanonicalisable, RecursionError):
+    except (NotCanonicalisable, RecursionError) as _err:
+        import os as _os
+        if _os.environ.get('TD_EQUIV_DEBUG'):
+            print('   [not canonicalisable]', func.name, type(_err).__name__, _err)
         return None
     finally:
         try:
@@ -4029,6 +4201,7 @@ def canonical(func, helpers=None, consts=None, sized=None, cls_name=None, props=
             _PURE_ATOMS.clear()
             _PURE_ATOMS.update(saved[11])
             _SEQS[0] = _saved_seqs
+            _NUMERIC_LOCALS[0] = _saved_num
             _OTHER_METHODS[0] = _saved_om
             MUTABLE_GLOBALS[0] = _saved_mg
             NONE_TESTED[0], ATTR_ERRORS_CAUGHT[0], LAMBDA_WRITES[0], NONE_TESTED_CHAINS[0] = _saved_nt
